@@ -32,6 +32,7 @@ struct rcfg {
   int std_target;  /* 0 none; HANDLE/FILE targets are the parent's own std stream: 1 = stdout, 2 = stderr */
   int fileno_ebadf;/* bit i: fileno() of std stream i answers EBADF (the fclose case) */
   int nonblocking;
+  int implicit;     /* HANDLE/FILE/PATH given by their member only, the type left unset (documented: "type inferred from the member that is set") */
   int closed_first; /* the descriptors are closed BEFORE the user's objects are opened: FILEs and handles land on 0-2 (a daemon that reopens its log) */
 };
 
@@ -74,8 +75,8 @@ static void c10_body(const struct rcfg *c)
   vk_cfg.vlimit = 64;
   static const char *const tn[] = { "default", "PIPE", "PARENT", "DISCARD", "STDOUT", "HANDLE", "FILE", "PATH" };
   static const char *const sh[] = { "-", "parent", "discard", "file", "path" };
-  snprintf(key, sizeof key, "h_c10|in=%s,out=%s,err=%s|shorthand=%s|closed=%d|stdtarget=%d|fileno_ebadf=%d|closed_first=%d", tn[c->t[0] < 0 ? 0 : c->t[0]], tn[c->t[1] < 0 ? 0 : c->t[1]],
-           tn[c->t[2] < 0 ? 0 : c->t[2]], sh[c->shorthand], c->closed, c->std_target, c->fileno_ebadf, c->closed_first);
+  snprintf(key, sizeof key, "h_c10|in=%s,out=%s,err=%s|shorthand=%s|closed=%d|stdtarget=%d|fileno_ebadf=%d|closed_first=%d|implicit=%d", tn[c->t[0] < 0 ? 0 : c->t[0]], tn[c->t[1] < 0 ? 0 : c->t[1]],
+           tn[c->t[2] < 0 ? 0 : c->t[2]], sh[c->shorthand], c->closed, c->std_target, c->fileno_ebadf, c->closed_first, c->implicit);
   hx_desc("%s", key);
   snprintf(key, sizeof key, "h_c10|std-closed=%s|targets=%s%s%s", c->closed ? "some" : "none", c->std_target ? "parent-std-stream" : "user-objects",
            c->fileno_ebadf ? "|fclosed" : "", c->closed_first ? "|user-objects-on-0-2" : "");
@@ -99,6 +100,7 @@ static void c10_body(const struct rcfg *c)
     reproc_redirect *rd = i == 0 ? &o.redirect.in : i == 1 ? &o.redirect.out : &o.redirect.err;
     if (t < 0) continue;
     rd->type = (REPROC_REDIRECT) t;
+    if (c->implicit && (t == T_HANDLE || t == T_FILE || t == T_PATH)) rd->type = REPROC_REDIRECT_DEFAULT;
     char name[32];
     if (t == T_HANDLE) {
       if (c->std_target) { rd->handle = c->std_target; ex.obj[i] = parent_obj[c->std_target]; }
@@ -271,14 +273,23 @@ static void c10_build(void)
           static const int cl[4] = { 1, 3, 5, 7 };
           int ta = types6[a], tb = types6[b], te = types7[e];
           if (!(ta == T_FILE || tb == T_FILE || te == T_FILE || ta == T_HANDLE || tb == T_HANDLE || te == T_HANDLE)) continue;
-          struct rcfg c = { { ta, tb, te }, 0, cl[ci], 0, 0, 0, 1 };
+          struct rcfg c = { { ta, tb, te }, 0, cl[ci], 0, 0, 0, 0, 1 };
           store[n++] = c;
         }
   for (int ci = 0; ci < 4; ci++) {
     static const int cl[4] = { 1, 3, 5, 7 };
-    struct rcfg c = { { -1, -1, -1 }, 3, cl[ci], 0, 0, 0, 1 };
+    struct rcfg c = { { -1, -1, -1 }, 3, cl[ci], 0, 0, 0, 0, 1 };
     store[n++] = c;
   }
+  /* fifth pass: the same targets named by their member alone */
+  for (int a = 0; a < 6; a++)
+    for (int b = 0; b < 6; b++)
+      for (int e = 0; e < 7; e++) {
+        int ta = types6[a], tb = types6[b], te = types7[e];
+        if (!(ta == T_FILE || tb == T_FILE || te == T_FILE || ta == T_HANDLE || tb == T_HANDLE || te == T_HANDLE || ta == T_PATH || tb == T_PATH || te == T_PATH)) continue;
+        struct rcfg c = { { ta, tb, te }, 0, 0, 0, 0, 0, 1, 0 };
+        store[n++] = c;
+      }
   c10_count[0] = n;
   /* thorough: nonblocking on as well, first pass with nothing closed and everything closed */
   for (int closed = 0; closed < 8; closed += 7)
